@@ -67,6 +67,69 @@ def err_kind(se, body, bb):
     return None
 
 
+def or_accumulator(ctx, se, d, KEY):
+    """d is `fold(..).i == 0` (or `!= 0`) for a fold over the 32 key bytes (zipped with a 32-byte
+    constant) whose component i ORs in `k` or `k ^ c` per position and starts at 0: returns (the
+    32-byte value for which the component is 0, d is the == form) or None"""
+    d = strip(d)
+    if not (d[0] == "binop" and d[1] in ("Eq", "Ne")):
+        return None
+    a, b = strip(d[2]), strip(d[3])
+    if a[:2] == ("int", 0):
+        a, b = b, a
+    if b[:2] != ("int", 0) or a[0] != "field" or not isinstance(a[2], int):
+        return None
+    f = strip(a[1])
+    if not (util.is_call(f) and f[1].endswith("::fold") and "Iterator" in f[1] and len(f[2]) == 3):
+        return None
+    it, init, cl = strip(f[2][0]), strip(f[2][1]), f[2][2]
+    comp = a[2]
+    if not (init[0] == "agg" and init[1] == "tuple" and comp < len(init[4]) and strip(init[4][comp])[:2] == ("int", 0)):
+        return None
+
+    def bytes_of(x):
+        x = strip(x)
+        while util.is_call(x) and (x[1] in util.IDENT_CALLS or x[1].split("::")[-1] in ("iter", "into_iter", "copied", "cloned")) and len(x[2]) == 1:
+            x = strip(x[2][0])
+        return x
+
+    other = None
+    if util.is_call(it, "std::iter::Iterator::zip"):
+        l_, r_ = bytes_of(it[2][0]), bytes_of(it[2][1])
+        if canon(ctx, se, l_) == KEY and const_array(r_) is not None and len(const_array(r_)) == 32:
+            kpos, other = 0, const_array(r_)
+        elif canon(ctx, se, r_) == KEY and const_array(l_) is not None and len(const_array(l_)) == 32:
+            kpos, other = 1, const_array(l_)
+        else:
+            return None
+    elif canon(ctx, se, bytes_of(it)) == KEY:
+        kpos = None
+    else:
+        return None
+    if not (cl[0] == "agg" and cl[1] == "closure" and not cl[4]):
+        return None
+    ACC, ITEM = ("acc",), ("item",)
+    v = util.closure_value(ctx, cl, (ACC, ITEM))
+    if v is None:
+        return None
+    v = strip(v)
+    if not (v[0] == "agg" and v[1] == "tuple" and comp < len(v[4])):
+        return None
+    from rules import arith
+    kb = ("field", ITEM, kpos) if kpos is not None else ITEM
+    cb_ = ("field", ITEM, 1 - kpos) if kpos is not None else None
+    env = {("field", ACC, comp): "a", kb: "k"}
+    if cb_ is not None:
+        env[cb_] = "c"
+    n = arith.norm(v[4][comp], env)
+    A_, K_, C_ = ("sym", "a"), ("sym", "k"), ("sym", "c")
+    if n == ("or", frozenset([A_, K_])):
+        return bytes(32), d[1] == "Eq"
+    if other is not None and n == ("or", frozenset([A_, ("xor", frozenset([K_, C_]))])):
+        return bytes(other), d[1] == "Eq"
+    return None
+
+
 def classify(ctx, fn, key=None, built=None):
     """abstract evaluation of a validity function over the key under test: the key parameter
     (param 1), or - `key` given - the 32-byte value a function goes on to store in a PublicKey.
@@ -178,6 +241,21 @@ def classify(ctx, fn, key=None, built=None):
                             explore(eq_t, es, seen | {bb}, excl)
                         explore_ne(ne_t, sets, c, seen | {bb}, excl)
                         return
+                # a branch-free accumulator: `key.iter().zip(C.iter()).fold((0, 0), |(a, d), (k, c)|
+                # (a | k, d | (k ^ c)))`; component == 0  <=>  every byte contributed 0:
+                # OR of the key bytes is 0 iff key == 0^32, OR of key[i] ^ C[i] is 0 iff key == C
+                acc = or_accumulator(ctx, se, d, KEY)
+                if acc is not None and len(tg) == 1 and tg[0][0] == 0:
+                    c, is_eq = acc
+                    if neg:
+                        is_eq = not is_eq
+                    t_true, t_false = info["otherwise"], tg[0][1]
+                    eq_t, ne_t = (t_true, t_false) if is_eq else (t_false, t_true)
+                    es = [s_ & frozenset([c[i]]) for i, s_ in enumerate(sets)]
+                    if all(es):
+                        explore(eq_t, es, seen | {bb}, excl)
+                    explore_ne(ne_t, sets, c, seen | {bb}, excl)
+                    return
                 raise Undecided("unrecognised decision %s" % show(d, maxdepth=3))
             if k == "return":
                 raise Undecided("path without a verdict")
